@@ -534,4 +534,31 @@ def rule_variant_payloads(ctx):
     ctx.floor('K8', 'payload-carrying variants of LogTarget', n, 2)
 
 
-RULES = [rule_tables, rule_cli, rule_variant_payloads]
+def rule_limited_reader_bound(ctx):
+    """take_limited_u8(key, limit) accepts exactly 0..=limit - the inclusive range the command line parser has."""
+    from lib.tables import enumerate_paths
+    b = ctx.body('config::ConfigFile::take_limited_u8')
+    n = 0
+    for p in enumerate_paths(b, ctx.facts):
+        if p.kind != 'return':
+            continue
+        rel = [set(labs) for v, labs in p.cond_map().items() if v.startswith('cmp(') and 'limit' in v]
+        if not rel:
+            continue
+        o = p.outcome or ''
+        first_value = True
+        for v in p.cond_map():
+            if v.startswith('cmp(') and 'limit' in v:
+                first_value = v.index('limit') > 5
+        le = {'Less', 'Equal'} if first_value else {'Greater', 'Equal'}
+        if o.startswith('Result::Ok(Option::Some'):
+            n += 1
+            ctx.check(rel[0] == le, 'K8', 'take_limited_u8:accepts<=limit',
+                      'a value is accepted iff value <= limit (relation %s)' % sorted(rel[0]),
+                      'take_limited_u8 accepts a value under the relation %s to its limit instead of `<=`: the command line accepts the '
+                      'limit itself (..=limit), to_toml prints it, and the printed file is then rejected (or a larger value accepted)'
+                      % sorted(rel[0]), loc=p.ret_site.loc() if p.ret_site else None)
+    ctx.floor('K8', 'accepting paths of take_limited_u8', n, 1)
+
+
+RULES = [rule_tables, rule_cli, rule_variant_payloads, rule_limited_reader_bound]
